@@ -119,16 +119,24 @@ def apply_close(ex, st, recv, args, exact=False):
 
 
 def apply_strat_alloc(ex, st, recv, args, exact=False):
-    """StrategyBase.allocate(amount, child=None, update=True) on a (sub)strategy: its subtree, its own and its parent's cash change"""
+    """StrategyBase.allocate/transact(x, child=None, update=True) on a (sub)strategy: its subtree changes, its parent's
+    cash accumulators change, root.stale is raised iff update"""
     h = st.heap
     parent = h.get(recv, "parent")
     k = cidx_f(recv.term)
     isroot = parent.term == recv.term
-    cond = lambda x: z3.If(isroot, treeof_f(x) == recv.term, Or(slot_f(parent.term, x) == k, x == parent.term))
+    cash = ("_capital", "_last_fee", "_net_flows")
     for key in update_modkeys():
+        base = key.split("#")[0]
+        if base in cash:
+            cond = lambda x: z3.If(isroot, treeof_f(x) == recv.term, Or(slot_f(parent.term, x) == k, x == parent.term))
+        else:
+            cond = lambda x: z3.If(isroot, treeof_f(x) == recv.term, slot_f(parent.term, x) == k)
         h.havoc(key, cond=cond)
     rt = h.get(recv, "root")
-    h.havoc("stale", cond=lambda x: x == rt.term)
+    upd = args[2] if len(args) > 2 else True
+    upd = upd if not isinstance(upd, bool) else z3.BoolVal(upd)
+    h.set(rt, "stale", Or(h.get(rt, "stale"), upd))
     return [_maybe_raise(st, "strategy_allocate_raises"), (st, NONEV)]
 
 
@@ -223,3 +231,124 @@ def verify_rebalance(ex, contract, timeout_ms=30000):
     except Exception as e:
         fr.undecided = "ENGINE-ERROR: %s\n%s" % (e, traceback.format_exc())
     return fr
+
+
+# ------------------------------------------------------------------ StrategyBase.flatten
+from pyvc.contracts import LoopSpec, ForallInt  # noqa: E402
+from .tree import child_facts, children_schema, self_facts  # noqa: E402
+
+
+def _I_child(heap, s, j):
+    """I instance for a security child: it is on the strategy's date with its position recorded, value marked to price"""
+    c = heap.list_at(s, "_childrenv", j)
+    issec = heap.get(c, "_issec")
+    return Implies(issec, And(heap.get(c, "now").eq(heap.get(s, "now")), eq(heap.get(c, "_last_pos"), heap.get(c, "_position")),
+                              Or(Not(heap.get(c, "_needupdate")), True)))
+
+
+def _flat_inv(ctx):
+    st, E = ctx.cur, ctx.entry.heap
+    self = ctx.entry.locals["self"]
+    h = st.heap
+    c = lambda j: E.list_at(self, "_childrenv", j)
+    rt = h.get(self, "root")
+    liquidated = lambda j: Implies(And(E.get(c(j), "_issec"), Not(is_zero(E.get(c(j), "_value"))), Not(is_zero(E.get(c(j), "_position"))), Not(is_zero(E.get(c(j), "_price"))), Not(isnan(E.get(c(j), "_price")))),
+                                   h.get(c(j), "_position").eq(0))
+    return [
+        ("root-not-stale-during-liquidation", Not(h.get(rt, "stale"))),
+        ("processed-securities-are-flat", ForallInt(0, ctx.i, liquidated, name="jl")),
+    ]
+
+
+def _flat_havoc(ctx):
+    self = ctx.entry.locals["self"]
+
+    def sub(i):
+        i = Num.lift(i)
+        return lambda x: And(slot_f(self.term, x) >= 0, slot_f(self.term, x) < i.r)
+
+    def sub_or_self(i):
+        i = Num.lift(i)
+        return lambda x: Or(And(slot_f(self.term, x) >= 0, slot_f(self.term, x) < i.r), x == self.term)
+
+    out = []
+    for k in update_modkeys():
+        base = k.split("#")[0]
+        out.append((k, sub_or_self if base in ("_capital", "_last_fee", "_net_flows") else sub))
+    return out
+
+
+def _flat_on_iter(ctx, c):
+    st = ctx.cur
+    self = st.locals["self"]
+    for f in child_facts(ctx.entry.heap, self, ctx.i):
+        st.assume(_zb(f))
+    st.assume(_zb(_I_child(ctx.entry.heap, self, ctx.i)))
+
+
+FLAT_FI = LoopSpec(lambda ctx: [], havoc_heap=_flat_havoc, on_iter=_flat_on_iter, name="flatten (fixed income): transact(-position)")
+FLAT_MV = LoopSpec(_flat_inv, havoc_heap=_flat_havoc, on_iter=_flat_on_iter, name="flatten: allocate(-value)")
+
+
+def verify_flatten(ex, contract, timeout_ms=30000):
+    from pyvc.verify import FuncReport, discharge, entry_state
+
+    fr = FuncReport(contract.qualname)
+    try:
+        fi = ex.prog.func(contract.qualname)
+        fr.source_hash = fi.source_hash()
+        st0, self, args = entry_state(ex, contract)
+        E = st0.heap
+        for f in self_facts(E, self):
+            st0.assume(_zb(f))
+        rt = E.get(self, "root")
+        st0.assume(_zb(Not(E.get(rt, "stale"))))
+        E = st0.heap.copy()
+        st0.ghost["schemas"] = [children_schema(E, self), ForallInt(0, E.list_len(self, "_childrenv"), lambda j: _I_child(E, self, j), name="ji")]
+        t0 = time.time()
+        exits = ex.run_function(fi, st0.fork(), self, [])
+        fr.symexec_s = time.time() - t0
+        fr.paths = len(exits)
+        obligs = []
+        n = E.list_len(self, "_childrenv")
+        c = lambda j: E.list_at(self, "_childrenv", j)
+        for xi, (st, oc) in enumerate(exits):
+            kind = oc.kind if oc.kind != "raise" else "raise:" + oc.exc
+            fr.exits[kind] = fr.exits.get(kind, 0) + 1
+            obligs.extend(st.obligs)
+            if oc.kind == "raise":
+                continue
+            F = st.heap
+
+            def ob(cid, goal, props):
+                o = Oblig("StrategyBase.flatten/%s" % cid, st.pc, goal, "post", props)
+                o.schemas = list(st.ghost.get("schemas", []))
+                obligs.append(o)
+
+            ob("marks-root-stale", F.get(F.get(self, "root"), "stale"), ("C01", "C08", "C16"))
+            ob("every-priced-security-child-is-flat", ForallInt(0, n, lambda j, F=F: Implies(
+                And(Not(E.get(self, "_fixed_income")), E.get(c(j), "_issec"), Not(is_zero(E.get(c(j), "_value"))), Not(is_zero(E.get(c(j), "_position"))), Not(is_zero(E.get(c(j), "_price"))), Not(isnan(E.get(c(j), "_price")))),
+                F.get(c(j), "_position").eq(0)), name="jl"), ("C16", "C06"))
+            x = z3.Const(dsl.fresh_name("xfr"), dsl.Ref)
+            outside = And(x != self.term, slot_f(self.term, x) == -1, x != rt.term)
+            for key in sorted(F.maps.keys()):
+                a, b = F.maps[key], E.ensure(key)
+                from pyvc.heap import map_same
+
+                if map_same(a, b):
+                    continue
+                obligs.append(Oblig("StrategyBase.flatten/frame:%s" % key, st.pc, Implies(outside, a.select(x) == b.select(x)), "post", ("C08", "C11")))
+        s = z3.Solver()
+        for p in st0.pc:
+            s.add(p)
+        fr.canary = str(s.check())
+        discharge(obligs, timeout_ms, fr, contract.qualname)
+        fr.stats = dict(feas_queries=ex.stats.feas_queries, feas_s=round(ex.stats.feas_time, 3), inlined=sorted(ex.stats.inlined), contracts_used=sorted(ex.stats.contracts_used))
+    except Undecided as e:
+        fr.undecided = str(e)
+    except Exception as e:
+        fr.undecided = "ENGINE-ERROR: %s\n%s" % (e, traceback.format_exc())
+    return fr
+
+
+LOOPS = {("bt.core.StrategyBase.flatten", 0): FLAT_FI, ("bt.core.StrategyBase.flatten", 1): FLAT_MV}
